@@ -86,7 +86,8 @@ pub fn model(input: &str) -> String {
     out
 }
 
-const PIECES: [&str; 34] = [
+const PIECES: [&str; 42] = [
+    "$ENV{é", "$ENV{L4V_A\u{301}}", "$ENV{𝄞}", "💥", "$ENV{L4V_A}}", "{$ENV{L4V_A}", "$ENV{L4V_A}$ENV{L4V_F}", "$ENV{L4V_Aé}",
     "log", "é", "a b", "x", "_", ".", "-", "$", "$$", "{", "}", "$ENV", "$ENV{", "ENV{", "$env{L4V_A}", "$ENV {L4V_A}",
     "$ENV{L4V_A}", "$ENV{L4V_B}", "$ENV{L4V_C}", "$ENV{L4V_D}", "$ENV{L4V_E}", "$ENV{L4V_F}", "$ENV{L4V.dot_1}", "$ENV{_L4V}",
     "$ENV{L4Vé}", "$ENV{L4V_UNSET}", "$ENV{L4V_NOPE.x}", "$ENV{é_unset}", "$ENV{}", "$ENV{-L4V_A}", "$ENV{.L4V_A}",
@@ -104,6 +105,11 @@ fn gen_string(rng: &mut Rng) -> String {
             1 => format!("$ENV{{{}}}{}$$ENV{{L4V_D}}{{{}}}", name, sep, name),
             _ => format!("$$ENV{{L4V_E}}{}$ENV{{L4V_A}}", sep),
         };
+    }
+    if rng.chance(1, 6) {
+        // unstructured: characters of the syntax and of variable names in any order
+        let pool: Vec<char> = "$ENV{}L4V_AFBé.-_ 𝄞x".chars().collect();
+        return (0..1 + rng.usize_below(30)).map(|_| *rng.pick(&pool)).collect();
     }
     let n = 1 + rng.usize_below(6);
     let mut s = String::new();
